@@ -62,8 +62,16 @@ def register_se(op):
         from xdis.cross_dis import xstack_effect
         opc = _tbl(a["table"])
         out = []
+        api = None
+        if a.get("via_std"):
+            # the std-style API object of that version: make_std_api(version, variant).stack_effect
+            from xdis.std import make_std_api
+            api = make_std_api(tuple(opc.version_tuple[:2]), "pypy" if getattr(opc, "is_pypy", False) else None)
         for o, arg in a["pairs"]:
             try:
+                if api is not None:
+                    out.append(api.stack_effect(o, arg) if arg is not None else api.stack_effect(o))
+                    continue
                 out.append(xstack_effect(o, opc, arg) if arg is not None else xstack_effect(o, opc))
             except Exception as e:  # noqa
                 out.append("err:" + type(e).__name__)
